@@ -414,3 +414,145 @@ Proof.
   - vm_compute. reflexivity.
   - vm_compute in V. discriminate.
 Qed.
+
+(* ---- the query of the request that triggered the start ------------------------------------------ *)
+
+Lemma trig_cons run q o r : trig run q (o :: r) = trig (fst (trig run q [o])) (snd (trig run q [o])) r.
+Proof. destruct o; reflexivity. Qed.
+
+Lemma trig_app : forall a run q b, trig run q (a ++ b) = trig (fst (trig run q a)) (snd (trig run q a)) b.
+Proof.
+  induction a as [|o r IH]; intros run q b; [reflexivity|].
+  rewrite <- app_comm_cons, trig_cons, IH, (trig_cons run q o r). reflexivity.
+Qed.
+
+Lemma cur_ms_app : forall ops ms0 o, cur_ms ms0 (ops ++ [o]) = cur_ms (cur_ms ms0 ops) [o].
+Proof.
+  induction ops as [|a r IH]; intros ms0 o; [reflexivity|].
+  rewrite <- app_comm_cons, cur_ms_cons, (cur_ms_cons ms0 a r). apply IH.
+Qed.
+
+Lemma src_step_trig x o x' e : src_step x o = (x', e) ->
+  (s_running x', s_query x') = trig (s_running x) (s_query x) [o].
+Proof.
+  intro H. destruct o as [oms fwd| | |q| | |]; cbn in H.
+  - destruct oms as [m|].
+    + unfold src_reload_matches in H.
+      destruct (s_running x && s_alive x && negb (bytes_eqb (src_resolve x m (s_query x)) (s_cur x))) eqn:C;
+        injection H as <- <-; cbn; [|reflexivity].
+      apply andb_true_iff in C. destruct C as [C _]. apply andb_true_iff in C. destruct C as [C _].
+      rewrite C. reflexivity.
+    + injection H as <- <-. reflexivity.
+  - injection H as <- <-. reflexivity.
+  - injection H as <- <-. reflexivity.
+  - destruct (s_running x) eqn:R; injection H as <- <-; cbn; rewrite ?R; reflexivity.
+  - injection H as <- <-. reflexivity.
+  - injection H as <- <-. reflexivity.
+  - destruct (s_running x && negb (s_alive x)) eqn:R; injection H as <- <-; cbn; [|reflexivity].
+    apply andb_true_iff in R. destruct R as [R _]. rewrite R. reflexivity.
+Qed.
+
+Lemma step_src keep s o x : p_src s = Some x ->
+  p_src (fst (step_with keep s o)) = Some (fst (src_step x o)) /\
+  snd (step_with keep s o) = snd (src_step x o).
+Proof.
+  intro H. unfold step_with. rewrite H. destruct (src_step x o) as [x' e].
+  destruct o as [oms fwd| | | | | |]; cbn [fst snd]; try (split; reflexivity).
+  destruct (f_reload_with keep (match oms with Some m => m | None => p_fm_ms s end) fwd (p_hs s) (p_next s)) as [nh nx].
+  split; reflexivity.
+Qed.
+
+Lemma run_src_trig keep : forall ops s x, p_src s = Some x ->
+  exists x', p_src (run_with keep s ops) = Some x' /\
+             (s_running x', s_query x') = trig (s_running x) (s_query x) ops.
+Proof.
+  induction ops as [|o r IH]; intros s x H; cbn [run_with].
+  - exists x. split; [exact H | reflexivity].
+  - destruct (step_src keep s o x H) as [A _].
+    destruct (IH _ _ A) as [x' [B C]]. exists x'. split; [exact B|].
+    rewrite C, (trig_cons (s_running x) (s_query x) o r).
+    destruct (src_step x o) as [y e] eqn:E. cbn [fst].
+    rewrite <- (src_step_trig x o y e E). reflexivity.
+Qed.
+
+(* the handler's query is, after every history, the query of the request that opened the current period *)
+Theorem life_source_query : forall name ms0 fwd0 t ops x,
+  p_src (run (init name ms0 fwd0 (Some t)) ops) = Some x ->
+  s_running x = trig_running ops /\ s_query x = trig_query ops /\
+  (s_running x && s_alive x = true -> s_cur x = resolve_source t (cur_ms ms0 ops) (trig_query ops)).
+Proof.
+  intros name ms0 fwd0 t ops x H.
+  destruct (run_src_trig keep_code ops (init name ms0 fwd0 (Some t)) _ eq_refl) as [x' [A B]].
+  unfold run in H. rewrite H in A. injection A as <-. cbn in B.
+  assert (R : s_running x = trig_running ops) by (unfold trig_running; rewrite <- B; reflexivity).
+  assert (Q : s_query x = trig_query ops) by (unfold trig_query; rewrite <- B; reflexivity).
+  split; [exact R|]. split; [exact Q|]. rewrite <- Q.
+  exact (proj2 (proj2 (life_source name ms0 fwd0 t ops x H))).
+Qed.
+
+(* every instance created by a step is given the current groups and the query of the triggering request *)
+Theorem life_source_events_query : forall name ms0 fwd0 t ops o s' evs,
+  step (run (init name ms0 fwd0 (Some t)) ops) o = (s', evs) ->
+  Forall (fun v => v = resolve_source t (cur_ms ms0 (ops ++ [o])) (trig_query (ops ++ [o]))) evs.
+Proof.
+  intros name ms0 fwd0 t ops o s' evs H.
+  pose proof (life_source_events name ms0 fwd0 t ops o s' evs H) as E.
+  assert (R : s' = run (init name ms0 fwd0 (Some t)) (ops ++ [o])).
+  { unfold run. clear E. unfold step, run in H. revert H. generalize (init name ms0 fwd0 (Some t)).
+    induction ops as [|a r IH]; intros s0 H; cbn [run_with app]; cbn [run_with] in H.
+    - rewrite H. reflexivity.
+    - apply IH. exact H. }
+  destruct (run_src_trig keep_code (ops ++ [o]) (init name ms0 fwd0 (Some t)) _ eq_refl) as [x' [A B]].
+  fold run in A. rewrite <- R in A. cbn in B.
+  assert (Q : ev_query s' = trig_query (ops ++ [o])).
+  { unfold ev_query, trig_query. rewrite A, <- B. reflexivity. }
+  rewrite <- Q. exact E.
+Qed.
+
+(* a start: exactly one instance, given the current groups and the query of this request *)
+Theorem life_source_start : forall name ms0 fwd0 t ops q,
+  trig_running ops = false ->
+  snd (step (run (init name ms0 fwd0 (Some t)) ops) (OSrcStart q)) = [resolve_source t (cur_ms ms0 ops) q].
+Proof.
+  intros name ms0 fwd0 t ops q NR.
+  destruct (run_src_trig keep_code ops (init name ms0 fwd0 (Some t)) _ eq_refl) as [x [A B]].
+  fold run in A. cbn in B.
+  destruct (life_source name ms0 fwd0 t ops x A) as [Ht [Hm _]].
+  destruct (step_src keep_code _ (OSrcStart q) x A) as [_ E]. unfold step. rewrite E.
+  assert (R : s_running x = false) by (unfold trig_running in NR; rewrite <- B in NR; exact NR).
+  cbn. rewrite R. cbn. unfold src_resolve. rewrite Ht, Hm. reflexivity.
+Qed.
+
+Theorem life_source_start_single_pass : forall name ms0 fwd0 t ops q,
+  trig_running ops = false ->
+  template_ok (src_cfg (cur_ms ms0 ops)) t = true -> Forall dollar_free (cur_ms ms0 ops) ->
+  snd (step (run (init name ms0 fwd0 (Some t)) ops) (OSrcStart q)) = [single_pass_source t (cur_ms ms0 ops) q].
+Proof.
+  intros name ms0 fwd0 t ops q NR Hok Hms. rewrite life_source_start by exact NR.
+  f_equal. apply source_equals_single_pass; assumption.
+Qed.
+
+(* the code's rule (store the query of the request) is the model's step *)
+Lemma store_code_is_step s o : src_step_store store_code s o = src_step s o.
+Proof. destruct o; reflexivity. Qed.
+
+(* rtsp://$G1:8554/$G2?$MTX_QUERY, groups host / live; token=abc *)
+Definition wq_t : bytes := [114;116;115;112;58;47;47; 36;71;49; 58;56;53;53;52;47; 36;71;50; 63; 36;77;84;88;95;81;85;69;82;89].
+Definition wq_ms : list bytes := [[99;97;109;95;104;111;115;116;95;108;105;118;101]; [104;111;115;116]; [108;105;118;101]].
+Definition wq_q1 : bytes := [116;111;107;101;110;61;97;98;99].
+Definition wq_q2 : bytes := [117;115;101;114;61;120].
+Definition wq_base : bytes := [114;116;115;112;58;47;47; 104;111;115;116; 58;56;53;53;52;47; 108;105;118;101; 63].
+
+Lemma store_nonempty_refuted :
+  let ops := [OSrcStart wq_q1; OSrcStop; OSrcStart []] in
+  src_events_with (src_step_store store_nonempty) (src_init wq_t wq_ms) ops = [[wq_base ++ wq_q1]; []; [wq_base ++ wq_q1]] /\
+  src_events_with src_step (src_init wq_t wq_ms) ops = [[wq_base ++ wq_q1]; []; [wq_base]] /\
+  resolve_source wq_t wq_ms (trig_query ops) = wq_base /\ template_ok (src_cfg wq_ms) wq_t = true.
+Proof. vm_compute. repeat split. Qed.
+
+Lemma store_first_refuted :
+  let ops := [OSrcStart wq_q1; OSrcStop; OSrcStart wq_q2] in
+  src_events_with (src_step_store store_first) (src_init wq_t wq_ms) ops = [[wq_base ++ wq_q1]; []; [wq_base ++ wq_q1]] /\
+  src_events_with src_step (src_init wq_t wq_ms) ops = [[wq_base ++ wq_q1]; []; [wq_base ++ wq_q2]] /\
+  resolve_source wq_t wq_ms (trig_query ops) = wq_base ++ wq_q2.
+Proof. vm_compute. repeat split. Qed.
